@@ -269,7 +269,7 @@ func ops() []op {
 			if len(r.labels) > 1 {
 				r.labels = r.labels[:len(r.labels)-1]
 			} else {
-				r.labels = append(r.labels, [2]string{"second", "label"})
+				r.labels = append(r.labels, [2]string{fmt.Sprintf("second%d", len(r.labels)), "label"})
 			}
 		}))
 		out = append(out, ruleOp(fi, 0, "drop one annotation of several", func(r *rule) {
@@ -277,7 +277,7 @@ func ops() []op {
 			case len(r.anns) > 1:
 				r.anns = r.anns[1:]
 			case r.kind == "alerting":
-				r.anns = append(r.anns, [2]string{"second", "annotation"})
+				r.anns = append(r.anns, [2]string{fmt.Sprintf("second%d", len(r.anns)), "annotation"})
 			default:
 				r.labels = append(r.labels, [2]string{fmt.Sprintf("another%d", len(r.labels)), "label"})
 			}
